@@ -114,6 +114,7 @@ func runScheduled(e *env, in input, height int64, f *finding) (*blockRun, string
 	att := make([]int, in.K+1)
 	cancelled := false
 	pre := map[string]bool{} // gates granted ahead of the model step (parked goroutines)
+	preCommit := map[int]bool{} // transactions whose Commit was let run ahead and is not yet committed in the model
 	desync := func(i int, what string) string {
 		// the real execution left the behaviour: let it run to the end and judge the outcome only
 		s.setFree()
@@ -244,6 +245,7 @@ func runScheduled(e *env, in input, height int64, f *finding) (*blockRun, string
 				return r, desync(i, fmt.Sprintf("tx %d did not reach Commit", st.T))
 			}
 		case "commit":
+			delete(preCommit, st.T)
 			s.grant(fmt.Sprintf("commit:%d", st.T))
 			if _, ok := s.waitNote(fmt.Sprintf("committed:%d", st.T), stepTimeout); !ok {
 				return r, desync(i, fmt.Sprintf("Commit of tx %d did not return", st.T))
@@ -270,8 +272,20 @@ func runScheduled(e *env, in input, height int64, f *finding) (*blockRun, string
 		// run ahead into the real code, they must not complete before the model allows it
 		var watch []string
 		for _, t := range st.Blk {
-			if !s.hasNote(fmt.Sprintf("exec:%d:%d", t, att[t])) || s.hasArrived(fmt.Sprintf("commit:%d", t)) {
-				continue // not started yet, or waiting inside Commit (both stay gated)
+			if s.hasArrived(fmt.Sprintf("commit:%d", t)) {
+				// finished, but Commit has to wait for the writer of a write-locked account it never touched: let it
+				// run into the real Commit, which must not return before the model allows it
+				k := fmt.Sprintf("commit:%d", t)
+				if !pre[k] {
+					pre[k] = true
+					preCommit[t] = true
+					s.grant(k)
+				}
+				watch = append(watch, fmt.Sprintf("committed:%d", t))
+				continue
+			}
+			if !s.hasNote(fmt.Sprintf("exec:%d:%d", t, att[t])) {
+				continue // not started yet (the start of a goroutine stays gated)
 			}
 			nx := nextOp(in.Steps[i+1:], t)
 			if nx == 0 {
@@ -287,9 +301,25 @@ func runScheduled(e *env, in input, height int64, f *finding) (*blockRun, string
 			}
 			watch = append(watch, fmt.Sprintf("opdone:%d:%d:%d", t, att[t], nx))
 		}
-		if len(watch) > 0 {
+		// a Commit that was let run ahead returns as soon as the real dependency commits, possibly before the model's own
+		// Commit step; what it unblocks may then legitimately happen early: nothing is asserted in that situation
+		ranAhead := false
+		for t := range preCommit {
+			if s.hasNote(fmt.Sprintf("committed:%d", t)) {
+				ranAhead = true
+			}
+		}
+		if len(watch) > 0 && !ranAhead {
 			time.Sleep(parkCheck)
+			for t := range preCommit {
+				if s.hasNote(fmt.Sprintf("committed:%d", t)) && !contains(st.Blk, t) {
+					ranAhead = true
+				}
+			}
 			for _, w := range watch {
+				if ranAhead && !strings.HasPrefix(w, "committed:") {
+					continue
+				}
 				if s.hasNote(w) {
 					f.set(false, "", fmt.Sprintf("step %d: %s happened although the model says the operation has to wait for a commit", i, w))
 				}
@@ -322,6 +352,15 @@ func afterCancel(s *sched) string {
 		return "err"
 	}
 	return "cancelled"
+}
+
+func contains(xs []int, x int) bool {
+	for _, y := range xs {
+		if y == x {
+			return true
+		}
+	}
+	return false
 }
 
 func nextOp(rest []step, t int) int {
